@@ -397,6 +397,12 @@ class Engine(object):
         if k == 'cond':
             m1, o1 = self.eval(e.a[1], env, callvals, ctx)
             m2, o2 = self.eval(e.a[2], env, callvals, ctx)
+            # a condition whose class on this path is known selects one arm (exit(ok ? 0 : 1) with ok known)
+            mc, oc = self.eval(e.a[0], env, callvals, ctx)
+            if mc and not (mc & Z):
+                return m1, o1 | oc
+            if mc == Z:
+                return m2, o2 | oc
             return m1 | m2, o1 | o2
         if k == 'mem' or (k == 'un' and e.op == '*') or k == 'idx':
             return default_mask(e), frozenset()
